@@ -242,6 +242,47 @@ fn disarm(outcome: Outcome) -> Obs {
     })
 }
 
+thread_local! {
+    /// failures returned earlier in this run together with how they rendered at the time (T8)
+    static PENDING: RefCell<Vec<(usize, ParseFailure, Outcome)>> = RefCell::new(Vec::new());
+}
+
+pub fn pending_clear() {
+    PENDING.with(|p| p.borrow_mut().clear());
+}
+
+fn pending_push(op_hint: usize, f: &ParseFailure, o: &Outcome) {
+    PENDING.with(|p| {
+        let mut p = p.borrow_mut();
+        if p.len() >= 6 {
+            p.remove(0);
+        }
+        p.push((op_hint, f.clone(), o.clone()));
+    });
+}
+
+/// T8: a `ParseFailure` is a value; rendering it later, after other parsers have run, must give
+/// the text it gave when it was returned. Returns (sequence number of the stale failure, then,
+/// now) for the first one that changed.
+pub fn pending_recheck() -> Option<(usize, Outcome, Outcome)> {
+    let items: Vec<(usize, ParseFailure, Outcome)> = PENDING.with(|p| p.borrow().clone());
+    for (k, f, then) in items {
+        let r = catch_unwind(AssertUnwindSafe(|| canon_failure(f.clone())));
+        let now = match r {
+            Ok(o) => o,
+            Err(p) => classify(p),
+        };
+        if now != then {
+            return Some((k, then, now));
+        }
+    }
+    None
+}
+
+thread_local! {
+    static FAILURE_SEQ: std::cell::Cell<usize> = std::cell::Cell::new(0);
+}
+
 pub fn canon_failure(f: ParseFailure) -> Outcome {
     match f {
         ParseFailure::Stdout(doc, full) => Outcome::Stdout(doc.monochrome(full)),
@@ -271,7 +312,15 @@ pub fn run_inner(
         }
         match parser.run_inner(args) {
             Ok(v) => Outcome::Value(v),
-            Err(f) => canon_failure(f),
+            Err(f) => {
+                let o = canon_failure(f.clone());
+                let k = FAILURE_SEQ.with(|c| {
+                    c.set(c.get() + 1);
+                    c.get()
+                });
+                pending_push(k, &f, &o);
+                o
+            }
         }
     }));
     let outcome = match r {
